@@ -1,4 +1,5 @@
 import ImathVerif.Lemmas.DispatchLemmas
+import Mathlib.Data.List.Nodup
 
 /-!
 # C20 — vectorised PyImath operations equal element-wise scalar operations under any task partition
@@ -14,6 +15,17 @@ single loop iterations.  Real concurrency (iterations overlapping in time on
 different threads) is NOT modelled: data-race freedom of the real threads is
 argued from `NoCrossAlias` (the footprints of distinct iterations are
 disjoint), and observed by the threaded mode of the harness.
+
+Sections added after audit/C20.md:
+* W1 `partition_independent_of_compositional` — for an ARBITRARY task (any state, `tid` may be used):
+  "empty range = identity", "2-way split = unsplit" and "swap of two disjoint sub-ranges" imply independence
+  of every partition and order; `badIgnoreStart_refuted`, `badScratch_refuted` show that the slips the
+  property names violate these laws (so the laws are what the harness's 2-way/swap scripts test).
+* W5 `applyVectorized_ok`, `applyMaskable_ok`, `Access.reindex_loc`, `applyMaskable_ok_cell` — the success
+  path of the functions `drv_dispatch` executes.
+* W6 `loc_injective_direct/masked`, `noCrossAlias_fresh_ret`, `noCrossAlias_fresh_direct`,
+  `noCrossAlias_inplace` — `NoCrossAlias` derived from what Python can build; `exCrossMasked` is outside.
+* W7 (generated `Box::extendBy`) is in `Props/C20Box.lean`.
 -/
 namespace ImathVerif.Dispatch
 
@@ -471,5 +483,379 @@ theorem inplace_length_mismatch_raises (pool : Option Pool) (self : Access) (sel
     simp [h1, this]
 
 example : (5 : Nat) ≠ 7 ∧ (some 9 : Option Nat) ≠ some 7 := by decide
+
+
+/-! ## W1 — partition independence of an ARBITRARY task from three observable laws -/
+
+/-- For ANY task `t` (any state, `tid` may be used): if on `[0,len)`
+    * an empty range does nothing (`hnil`),
+    * a 2-way split equals the unsplit call, whatever thread ids the pieces get (`hsplit`),
+    * two disjoint non-empty sub-ranges may be swapped (`hcomm`),
+    then EVERY partition of `[0,len)` executed in EVERY order gives the result of `execute (0,len)`.
+    The two families of scripts the harness runs on the real tasks (2-way split; swap of two
+    sub-ranges) therefore suffice for all partitions. -/
+theorem partition_independent_of_compositional (t : Task σ) (len : Nat)
+    (hnil   : ∀ s tid h, t s s tid h = h)
+    (hsplit : ∀ s m e tid tid' h, s ≤ m → m ≤ e → e ≤ len → t s e tid h = t m e tid' (t s m tid h))
+    (hcomm  : ∀ a b c d tid tid' h, a < b → b ≤ c → c < d → d ≤ len →
+                 t c d tid' (t a b tid h) = t a b tid (t c d tid' h))
+    (rs : List Range) (hp : IsPartition len rs) (rs' : List Range) (hperm : rs'.Perm rs) (h : σ) :
+    runRanges t rs' h = t 0 len 0 h :=
+  runRanges_partitionOn t len hnil hsplit hcomm len (Nat.le_refl len) rs'.length rs' rfl 0 h (Nat.zero_le len)
+    (isPartitionOn_of_isPartition len rs' (isPartition_perm len rs rs' hperm hp))
+
+/-- The loop schema satisfies the three laws ... -/
+theorem ofStep_compositional (step : Nat → Heap α → Heap α) (w : Nat → Addr) (r : Nat → List Addr)
+    (fp : Footprint step w r) (len : Nat) (hna : NoCrossAlias len w r) :
+    (∀ s tid h, Task.ofStep step s s tid h = h) ∧
+    (∀ s m e tid tid' h, s ≤ m → m ≤ e → e ≤ len →
+      Task.ofStep step s e tid h = Task.ofStep step m e tid' (Task.ofStep step s m tid h)) ∧
+    (∀ a b c d tid tid' h, a < b → b ≤ c → c < d → d ≤ len →
+      Task.ofStep step c d tid' (Task.ofStep step a b tid h) = Task.ofStep step a b tid (Task.ofStep step c d tid' h)) :=
+  let C := compositional_ofStep fp len hna
+  ⟨C.nil, C.split, C.comm⟩
+
+/-- ... so the first conjunct of `partition_independent_footprint` is a corollary of the theorem for
+    arbitrary tasks (the new theorem subsumes the schema). -/
+theorem partition_independent_footprint_via_compositional (step : Nat → Heap α → Heap α) (w : Nat → Addr)
+    (r : Nat → List Addr) (fp : Footprint step w r) (len : Nat) (hna : NoCrossAlias len w r)
+    (rs : List Range) (hp : IsPartition len rs) (rs' : List Range) (hperm : rs'.Perm rs) (h : Heap α) :
+    runRanges (Task.ofStep step) rs' h = Task.ofStep step 0 len 0 h :=
+  let C := compositional_ofStep fp len hna
+  partition_independent_of_compositional (Task.ofStep step) len C.nil C.split C.comm rs hp rs' hperm h
+
+/-! ### The two slips the property names are refuted by the laws -/
+
+/-- a task that IGNORES ITS START INDEX: `execute (start,end)` loops from 0 -/
+def badIgnoreStart (step : Nat → σ → σ) : Task σ := fun _ e _ => exec step 0 e
+
+/-- `a[i] += 1` in place (not idempotent) -/
+def incTask : ElemTask Int := { ret := .direct 0 1, args := [.arr (.direct 0 1)], op := fun l => addOp l + 1 }
+
+/-- the initial heap of the refutations: cell `x` holds `10 * x` -/
+def h0 : Heap Int := ⟨fun x => 10 * (x : Int)⟩
+
+/-- `badIgnoreStart` violates the 2-way-split law at `s=0, m=1, e=3` ... -/
+theorem badIgnoreStart_refuted :
+    ¬ (∀ s m e tid tid' h, s ≤ m → m ≤ e → e ≤ 3 →
+        badIgnoreStart incTask.step s e tid h = badIgnoreStart incTask.step m e tid' (badIgnoreStart incTask.step s m tid h)) ∧
+    IsPartition 3 [⟨0, 1, 0⟩, ⟨1, 3, 1⟩] ∧
+    (runRanges (badIgnoreStart incTask.step) [⟨0, 1, 0⟩, ⟨1, 3, 1⟩] h0).get 0 = 2 ∧
+    (badIgnoreStart incTask.step 0 3 0 h0).get 0 = 1 ∧
+    runRanges (badIgnoreStart incTask.step) [⟨0, 1, 0⟩, ⟨1, 3, 1⟩] h0 ≠ badIgnoreStart incTask.step 0 3 0 h0 := by
+  have e1 : (runRanges (badIgnoreStart incTask.step) [⟨0, 1, 0⟩, ⟨1, 3, 1⟩] h0).get 0 = 2 := by
+    simp only [runRanges, List.foldl, badIgnoreStart, exec_eq_runList]; decide
+  have e2 : (badIgnoreStart incTask.step 0 3 0 h0).get 0 = 1 := by
+    simp only [badIgnoreStart, exec_eq_runList]; decide
+  refine ⟨?_, by decide, e1, e2, ?_⟩
+  · intro H
+    have := congrArg (fun h => h.get 0) (H 0 1 3 0 1 h0 (by decide) (by decide) (by decide))
+    have e1' : (badIgnoreStart incTask.step 1 3 1 (badIgnoreStart incTask.step 0 1 0 h0)).get 0 = 2 := e1
+    simp only [e1', e2] at this
+    exact absurd this (by decide)
+  · intro H
+    have := congrArg (fun h => h.get 0) H
+    simp only [e1, e2] at this
+    exact absurd this (by decide)
+
+
+/-- a task that SHARES SCRATCH STATE between sub-ranges: a member `tmp` (cell 100) is set from the
+    first element of the sub-range (`tmp = arg[start]`) and then used by every iteration
+    (`ret[i] = arg[i] + tmp`, `ret` at 0.., `arg` at 50..). -/
+def scratchStep (i : Nat) (h : Heap Int) : Heap Int := h.write i (h.get (50 + i) + h.get 100)
+def badScratch : Task (Heap Int) := fun s e _ h => exec scratchStep s e (h.write 100 (h.get (50 + s)))
+
+/-- `badScratch` violates the 2-way-split law at `s=0, m=1, e=3`, and the split run differs from the unsplit
+    one in the OUTPUT cell `ret[2]` (`arg[2] + arg[1] = 1030` instead of `arg[2] + arg[0] = 1020`). -/
+theorem badScratch_refuted :
+    ¬ (∀ s m e tid tid' h, s ≤ m → m ≤ e → e ≤ 3 →
+        badScratch s e tid h = badScratch m e tid' (badScratch s m tid h)) ∧
+    IsPartition 3 [⟨0, 1, 0⟩, ⟨1, 3, 1⟩] ∧
+    (runRanges badScratch [⟨0, 1, 0⟩, ⟨1, 3, 1⟩] h0).get 2 = 1030 ∧
+    (badScratch 0 3 0 h0).get 2 = 1020 ∧
+    runRanges badScratch [⟨0, 1, 0⟩, ⟨1, 3, 1⟩] h0 ≠ badScratch 0 3 0 h0 := by
+  have e1 : (runRanges badScratch [⟨0, 1, 0⟩, ⟨1, 3, 1⟩] h0).get 2 = 1030 := by
+    simp only [runRanges, List.foldl, badScratch, exec_eq_runList]; decide
+  have e2 : (badScratch 0 3 0 h0).get 2 = 1020 := by
+    simp only [badScratch, exec_eq_runList]; decide
+  refine ⟨?_, by decide, e1, e2, ?_⟩
+  · intro H
+    have := congrArg (fun h => h.get 2) (H 0 1 3 0 1 h0 (by decide) (by decide) (by decide))
+    have e1' : (badScratch 1 3 1 (badScratch 0 1 0 h0)).get 2 = 1030 := e1
+    simp only [e1', e2] at this
+    exact absurd this (by decide)
+  · intro H
+    have := congrArg (fun h => h.get 2) H
+    simp only [e1, e2] at this
+    exact absurd this (by decide)
+
+/-- A CORRECT hand-written-style task: `tid` ignored, a per-iteration temporary only
+    (`tmp = 2 * a[i]; ret[i] = tmp + b[i]`, `ret` at 0.., `a` at 100.., `b` at 200..). -/
+def handStep (i : Nat) (h : Heap Int) : Heap Int :=
+  let tmp := 2 * h.get (100 + i)
+  h.write i (tmp + h.get (200 + i))
+def handTask : Task (Heap Int) := fun s e _ h => exec handStep s e h
+
+theorem handStep_footprint : Footprint handStep (fun i => i) (fun i => [100 + i, 200 + i]) where
+  frame := by
+    intro i h x hx
+    simp [handStep, Heap.write, hx]
+  dep := by
+    intro i h h' hag
+    simp only [handStep, Heap.write, if_true]
+    rw [hag (100 + i) (by simp), hag (200 + i) (by simp)]
+
+theorem handStep_noCrossAlias (len : Nat) (hl : len ≤ 100) :
+    NoCrossAlias len (fun i => i) (fun i => [100 + i, 200 + i]) := by
+  intro i hi j hj hij
+  refine ⟨hij, ?_⟩
+  simp only [List.mem_cons, List.not_mem_nil, or_false, not_or]
+  show ¬ (i : Nat) = 100 + j ∧ ¬ (i : Nat) = 200 + j
+  constructor <;> omega
+
+/-- non-vacuity of `partition_independent_of_compositional`: the correct task satisfies all three laws
+    (at every `len ≤ 100`), so every partition in every order gives `execute (0,len)` ... -/
+theorem handTask_compositional (len : Nat) (hl : len ≤ 100) : Compositional handTask len :=
+  compositional_ofStep handStep_footprint len (handStep_noCrossAlias len hl)
+
+example (h : Heap Int) :
+    runRanges handTask [⟨7, 12, 3⟩, ⟨0, 3, 1⟩, ⟨3, 3, 0⟩, ⟨3, 7, 1⟩] h = handTask 0 12 0 h :=
+  let C := handTask_compositional 12 (by decide)
+  partition_independent_of_compositional handTask 12 C.nil C.split C.comm _
+    (by decide : IsPartition 12 [⟨0, 3, 1⟩, ⟨3, 3, 0⟩, ⟨3, 7, 1⟩, ⟨7, 12, 3⟩]) _
+    (by decide) h
+
+/-- ... and so does the vectorised loop on distinct buffers. -/
+example : Compositional exDistinct.task 12 :=
+  compositional_ofStep exDistinct.footprint 12 (by decide)
+
+
+/-! ## W5 — the success path of what `drv_dispatch` executes -/
+
+/-- `VectorizedFunctionN::apply` on arguments whose lengths match: the heap is the element-wise result,
+    whether or not (and however) the pool splits `[0,len)`. -/
+theorem applyVectorized_ok (pool : Option Pool) (ms : List Measure) (mk : Nat → ElemTask α) (h : Heap α) (len : Nat)
+    (hm : measureArguments ms = some len) (hna : NoCrossAlias len (mk len).w (mk len).r)
+    (hvalid : ∀ p, pool = some p → IsPartition len (p.script len)) :
+    applyVectorized pool ms mk h = (elementwise (mk len).step (mk len).w len h, true) := by
+  unfold applyVectorized
+  rw [hm]
+  simp only
+  rw [(dispatch_threshold pool (mk len) len hna hvalid h).2.2.2.2]
+
+/-- non-vacuity of `applyVectorized_ok` above the threshold: `r = a + b` on 201 elements (`r` at 0..,
+    `a` at 1000.., `b` at 2000..), a scalar among the measured arguments, the two-thread pool `exPool`
+    (which IS used: `usesPool (some exPool) 201 = true`). -/
+def exFar : ElemTask Int := { ret := .direct 0 1, args := [.arr (.direct 1000 1), .arr (.direct 2000 1)], op := addOp }
+
+theorem exFar_noCrossAlias : NoCrossAlias 201 exFar.w exFar.r := by
+  intro i hi j hj hij
+  refine ⟨?_, ?_⟩
+  · show ¬ (0 + i * 1 : Nat) = 0 + j * 1
+    omega
+  · show ¬ (0 + i * 1 : Nat) ∈ [1000 + j * 1, 2000 + j * 1]
+    simp only [List.mem_cons, List.not_mem_nil, or_false, not_or]
+    constructor <;> omega
+
+example (h : Heap Int) :
+    applyVectorized (some exPool) [(201, true), (1, false), (201, true)] (fun _ => exFar) h =
+      (elementwise exFar.step exFar.w 201 h, true) :=
+  applyVectorized_ok (some exPool) _ (fun _ => exFar) h 201 (by decide) exFar_noCrossAlias
+    (by intro p hp; cases hp; decide +kernel)
+
+/-- `arg[i]` as the in-place task reads it -/
+def maskableArg (self : Access) (selfUnmasked : Option Nat) (arg : Access) (argLen : Nat) : Access :=
+  if selfUnmasked = some argLen then arg.reindex self else arg
+
+/-- the task `VectorizedVoidMaskableMemberFunction1::apply` builds -/
+def maskableTask (self : Access) (selfUnmasked : Option Nat) (arg : Access) (argLen : Nat) (op : List α → α) :
+    ElemTask α :=
+  { ret := self, args := [.arr self, .arr (maskableArg self selfUnmasked arg argLen)], op := op }
+
+theorem applyMaskable_ok (pool : Option Pool) (self : Access) (selfLen : Nat) (selfUnmasked : Option Nat)
+    (arg : Access) (argLen : Nat) (op : List α → α) (h : Heap α) (len : Nat)
+    (hd : matchDimension selfLen selfUnmasked argLen false = some len)
+    (hna : NoCrossAlias len (maskableTask self selfUnmasked arg argLen op).w (maskableTask self selfUnmasked arg argLen op).r)
+    (hvalid : ∀ p, pool = some p → IsPartition len (p.script len)) :
+    applyMaskable pool self selfLen selfUnmasked arg argLen op h =
+      (elementwise (maskableTask self selfUnmasked arg argLen op).step (maskableTask self selfUnmasked arg argLen op).w len h,
+        true) := by
+  have harg : (if selfUnmasked.isSome && decide (selfUnmasked = some argLen) then arg.reindex self else arg) =
+      maskableArg self selfUnmasked arg argLen := by
+    unfold maskableArg
+    cases selfUnmasked with
+    | none => simp
+    | some u => simp
+  unfold applyMaskable
+  rw [hd]
+  simp only [harg]
+  rw [← (dispatch_threshold pool (maskableTask self selfUnmasked arg argLen op) len hna hvalid h).2.2.2.2]
+  rfl
+
+/-- non-vacuity of `applyMaskable_ok`, `reindex` branch: `a[mask] += b` with `a` masked at [1,3,4,7] of
+    unmasked length 10 and `b` a direct array of length 10 (so `b` is read at the raw indices) ... -/
+def exHalves : Pool := { workers := 2, script := fun len => [⟨len / 2, len, 1⟩, ⟨0, len / 2, 0⟩], inWorkerThread := false }
+
+example (h : Heap Int) :
+    applyMaskable (some exHalves) (.masked 0 1 [1, 3, 4, 7]) 4 (some 10) (.direct 100 1) 10 addOp h =
+      (elementwise (maskableTask (.masked 0 1 [1, 3, 4, 7]) (some 10) (.direct 100 1) 10 addOp).step
+        (maskableTask (.masked 0 1 [1, 3, 4, 7]) (some 10) (.direct 100 1) 10 addOp (α := Int)).w 4 h, true) :=
+  applyMaskable_ok (some exHalves) _ 4 (some 10) _ 10 addOp h 4 (by decide) (by decide)
+    (by intro p hp; cases hp; decide)
+
+/-- ... and the plain branch (argument of the masked length). -/
+example (h : Heap Int) :
+    (applyMaskable none (.masked 0 1 [1, 3, 4, 7]) 4 (some 10) (.direct 100 1) 4 addOp h).2 = true :=
+  congrArg Prod.snd (applyMaskable_ok none (.masked 0 1 [1, 3, 4, 7]) 4 (some 10) (.direct 100 1) 4 addOp h 4
+    (by decide) (by decide) (by intro p hp; cases hp))
+
+/-- The accessor built for the masked branch reads `arg[self.raw_ptr_index (i)]`
+    (the line seed mutation C20-2 broke). -/
+theorem Access.reindex_loc (arg self : Access) (i : Nat)
+    (hi : match self with | .masked _ _ idx => i < idx.length | .direct _ _ => True) :
+    (arg.reindex self).loc i = arg.loc (self.rawIndex i) := by
+  cases self with
+  | direct b s => cases arg <;> rfl
+  | masked b s idx =>
+    cases arg with
+    | direct b2 s2 => rfl
+    | masked b2 s2 idx2 =>
+      simp only at hi
+      simp [Access.reindex, Access.loc, Access.rawIndex, List.getD_eq_getElem?_getD, hi]
+
+example :
+    ((Access.masked 300 2 [4, 0, 9, 7, 1, 5, 3, 8, 2, 6]).reindex (Access.masked 0 1 [1, 3, 4, 7])).loc 2 = 302 ∧
+    (Access.masked 300 2 [4, 0, 9, 7, 1, 5, 3, 8, 2, 6]).loc ((Access.masked 0 1 [1, 3, 4, 7]).rawIndex 2) = 302 ∧
+    (2 : Nat) < [1, 3, 4, 7].length := by decide
+
+/-- without the bound the statement is false (masked self, masked arg, `i` past the mask) -/
+example : ((Access.masked 300 2 [4, 0, 9]).reindex (Access.masked 0 1 [1])).loc 5 ≠
+    (Access.masked 300 2 [4, 0, 9]).loc ((Access.masked 0 1 [1]).rawIndex 5) := by decide
+
+/-- End to end for the in-place operators, including the `reindex` branch: after `self op= arg`
+    cell `self[i]` holds `op (self[i], arg[k])` of the ORIGINAL heap where `k = self.raw_ptr_index (i)`
+    when self is a masked reference and `arg` has its unmasked length, and `k = i` otherwise. -/
+theorem applyMaskable_ok_cell (pool : Option Pool) (self : Access) (selfLen : Nat) (selfUnmasked : Option Nat)
+    (arg : Access) (argLen : Nat) (op : List α → α) (h : Heap α) (len : Nat)
+    (i : Nat) (hi : i < len) (hm : match self with | .masked _ _ idx => i < idx.length | .direct _ _ => True)
+    (hd : matchDimension selfLen selfUnmasked argLen false = some len)
+    (hna : NoCrossAlias len (maskableTask self selfUnmasked arg argLen op).w (maskableTask self selfUnmasked arg argLen op).r)
+    (hvalid : ∀ p, pool = some p → IsPartition len (p.script len)) :
+    (applyMaskable pool self selfLen selfUnmasked arg argLen op h).1.get (self.loc i) =
+      op [h.get (self.loc i),
+          h.get (arg.loc (if selfUnmasked = some argLen then self.rawIndex i else i))] := by
+  rw [applyMaskable_ok pool self selfLen selfUnmasked arg argLen op h len hd hna hvalid]
+  have := (elementwise_spec (maskableTask self selfUnmasked arg argLen op) len hna h).1 i hi
+  simp only [maskableTask] at this ⊢
+  rw [this]
+  simp only [List.map, Arg.read, maskableArg]
+  by_cases hc : selfUnmasked = some argLen
+  · rw [if_pos hc, if_pos hc, Access.reindex_loc arg self i hm]
+  · rw [if_neg hc, if_neg hc]
+
+/-! ## W6 — `NoCrossAlias` from what Python can build -/
+
+theorem loc_injective_direct (b s : Nat) (hs : 0 < s) (i j : Nat) (hij : i ≠ j) :
+    (Access.direct b s).loc i ≠ (Access.direct b s).loc j := by
+  intro e
+  have e' : b + i * s = b + j * s := e
+  exact hij (Nat.eq_of_mul_eq_mul_right hs (Nat.add_left_cancel e'))
+
+theorem loc_injective_masked (b s : Nat) (idx : List Nat) (hs : 0 < s) (hnd : idx.Nodup) (i j : Nat)
+    (hi : i < idx.length) (hj : j < idx.length) (hij : i ≠ j) :
+    (Access.masked b s idx).loc i ≠ (Access.masked b s idx).loc j := by
+  intro e
+  have e' : b + idx.getD i 0 * s = b + idx.getD j 0 * s := e
+  simp only [List.getD_eq_getElem?_getD, List.getElem?_eq_getElem hi, List.getElem?_eq_getElem hj,
+    Option.getD_some] at e'
+  have h2 : idx[i] = idx[j] := Nat.eq_of_mul_eq_mul_right hs (Nat.add_left_cancel e')
+  exact hij ((List.Nodup.getElem_inj_iff hnd).mp h2)
+
+/-- non-vacuity: a strided view and a mask with distinct indices; a mask with a repeated index is not injective -/
+example : (0 : Nat) < 3 ∧ [1, 3, 4, 7].Nodup ∧ (2 : Nat) < [1, 3, 4, 7].length ∧
+    (Access.masked 10 3 [1, 3, 4, 7]).loc 1 = 19 ∧ (Access.masked 10 3 [1, 3, 4, 7]).loc 2 = 22 ∧
+    (Access.masked 10 3 [1, 3, 3, 7]).loc 1 = (Access.masked 10 3 [1, 3, 3, 7]).loc 2 := by decide
+
+/-- What an accessor made from a FixedArray of length ≥ `len` looks like: positive stride; a mask holds
+    distinct raw indices (`FixedArray (FixedArray&, mask)` collects the positions where the mask is set). -/
+def Access.WellFormed (a : Access) (len : Nat) : Prop :=
+  match a with
+  | .direct _ s => 0 < s
+  | .masked _ s idx => 0 < s ∧ idx.Nodup ∧ len ≤ idx.length
+
+instance (a : Access) (len : Nat) : Decidable (a.WellFormed len) := by
+  unfold Access.WellFormed; cases a <;> exact inferInstance
+
+theorem loc_injective_of_wellFormed (a : Access) (len : Nat) (hwf : a.WellFormed len) (i : Nat) (hi : i < len) (j : Nat)
+    (hj : j < len) (hij : i ≠ j) : a.loc i ≠ a.loc j := by
+  cases a with
+  | direct b s => exact loc_injective_direct b s hwf i j hij
+  | masked b s idx =>
+    obtain ⟨hs, hnd, hl⟩ := hwf
+    exact loc_injective_masked b s idx hs hnd i j (by omega) (by omega) hij
+
+/-- The result array is a fresh allocation (every non-in-place operator): `ret` is injective and no
+    argument touches a cell of it. -/
+theorem noCrossAlias_fresh_ret (t : ElemTask α) (len : Nat)
+    (hinj : ∀ i, i < len → ∀ j, j < len → i ≠ j → t.ret.loc i ≠ t.ret.loc j)
+    (hfresh : ∀ acc, Arg.arr acc ∈ t.args → ∀ i, i < len → ∀ j, j < len → acc.loc j ≠ t.ret.loc i) :
+    NoCrossAlias len t.w t.r :=
+  noCrossAlias_of t len hinj (fun acc ha => Or.inr (hfresh acc ha))
+
+/-- ... as Python builds it: `ret = FixedArray (len)` is a direct stride-1 accessor on a new buffer
+    `[b, b+len)` that no argument cell lies in. -/
+theorem noCrossAlias_fresh_direct (t : ElemTask α) (len b : Nat) (hret : t.ret = .direct b 1)
+    (hfresh : ∀ acc, Arg.arr acc ∈ t.args → ∀ j, j < len → acc.loc j < b ∨ b + len ≤ acc.loc j) :
+    NoCrossAlias len t.w t.r := by
+  apply noCrossAlias_fresh_ret t len
+  · rw [hret]; intro i _ j _ hij; exact loc_injective_direct b 1 (by decide) i j hij
+  · intro acc ha i hi j hj
+    rw [hret]
+    intro e
+    have e' : @Eq Nat (acc.loc j) (b + i * 1) := e
+    have hh : @LT.lt Nat _ (acc.loc j) b ∨ @LE.le Nat _ (b + len) (acc.loc j) := hfresh acc ha j hj
+    omega
+
+/-- In-place operators as Python builds them: `self` is a direct (strided) or masked view with distinct
+    mask indices, every array argument is `self` itself or does not touch a cell of `self`. -/
+theorem noCrossAlias_inplace (t : ElemTask α) (len : Nat) (hwf : t.ret.WellFormed len)
+    (hargs : ∀ acc, Arg.arr acc ∈ t.args →
+      acc = t.ret ∨ ∀ i, i < len → ∀ j, j < len → acc.loc j ≠ t.ret.loc i) :
+    NoCrossAlias len t.w t.r :=
+  noCrossAlias_of t len (loc_injective_of_wellFormed t.ret len hwf) hargs
+
+/-- non-vacuity: `exDistinct` is the fresh-result case, `exMasked` the in-place case -/
+example : NoCrossAlias 12 exDistinct.w exDistinct.r :=
+  noCrossAlias_fresh_direct exDistinct 12 0 rfl (by
+    intro acc ha j hj
+    simp only [exDistinct, List.mem_cons, Arg.arr.injEq, List.not_mem_nil, or_false] at ha
+    rcases ha with rfl | rfl <;> (right; show (0 : Nat) + 12 ≤ _ + j * 1; omega))
+
+example : exMasked.ret.WellFormed 4 ∧
+    ∀ acc, Arg.arr acc ∈ exMasked.args →
+      acc = exMasked.ret ∨ ∀ i, i < 4 → ∀ j, j < 4 → acc.loc j ≠ exMasked.ret.loc i := by
+  refine ⟨by decide, ?_⟩
+  intro acc ha
+  simp only [exMasked, List.mem_cons, Arg.arr.injEq, List.not_mem_nil, or_false, reduceCtorEq] at ha
+  rcases ha with rfl | rfl
+  · left; rfl
+  · right; decide
+
+/-- Cross-aliased MASKED views of one buffer (`a[m1] += a[m2]` with overlapping, shifted masks; the
+    `probe_cross_aliased_masked_views` case of the harness) are OUTSIDE the property's quantifier ... -/
+def exCrossMasked : ElemTask Int :=
+  let self := Access.masked 0 1 [1, 2, 3]
+  { ret := self, args := [.arr self, .arr (.masked 0 1 [0, 1, 2])], op := addOp }
+example : ¬ NoCrossAlias 3 exCrossMasked.w exCrossMasked.r := by decide
+
+/-- ... and genuinely order dependent: cell 3 holds 4 after `execute (0,3)` on `a = [1,1,1,1]`, 2 when the
+    sub-ranges run in reverse order. -/
+example :
+    (exCrossMasked.task 0 3 0 ⟨fun _ => 1⟩).get 3 = 4 ∧
+    (runRanges exCrossMasked.task [⟨2, 3, 0⟩, ⟨1, 2, 1⟩, ⟨0, 1, 2⟩] ⟨fun _ => 1⟩).get 3 = 2 ∧
+    IsPartition 3 [⟨2, 3, 0⟩, ⟨1, 2, 1⟩, ⟨0, 1, 2⟩] := by
+  refine ⟨?_, ?_, by decide⟩
+  · simp only [ElemTask.task, Task.ofStep, exec_eq_runList]; decide
+  · simp only [runRanges, List.foldl, ElemTask.task, Task.ofStep, exec_eq_runList]; decide
 
 end ImathVerif.Dispatch
